@@ -17,13 +17,13 @@ TECHNIQUE = "exhaustive truncation x segmentation x consumer timing on the real 
 RULE = ("responses = {GET,HEAD} x {persistent,not} x status{200,204,304} x 0..2 interim 1xx x framing{Content-Length, "
         "Content-Length 0, duplicated Content-Length, chunked (1 chunk / 2 chunks with extension and trailer), "
         "close-delimited, none} x body{abc, empty, chunk-lookalike} x line ending{CRLF, LF} x extras{folded header, "
-        "no reason phrase, HTTP/1.0}; for each: connection lost after every byte count t in 0..len, the prefix "
+        "no reason phrase, HTTP/1.0, header names and the chunked/close tokens respelt UPPER / mIXED / lower}; for each: connection lost after every byte count t in 0..len, the prefix "
         "delivered whole / byte-at-a-time / with every single cut, deliverBody called inside the callback / before "
         "the next event / after the loss. Checked: request Deferred fires exactly once (response as soon as the "
         "headers are complete, failure if they never are), body bytes = body bytes delivered, consumer "
         "connectionLost once with ResponseDone / PotentialDataLoss / other failure. "
         "non-trivial = executions whose truncation or cut falls strictly inside the message")
-BOUNDS = {"quick": "50 responses x every truncation x {whole, bytewise, every 1-cut} x 3 consumer timings",
+BOUNDS = {"quick": "57 responses x every truncation x {whole, bytewise, every 1-cut} x 3 consumer timings",
           "thorough": "~250 responses (full product of method x persistence x status x framing x line ending, interim x framing, bodies x framing, extras); additionally every 2-cut of each full response"}
 ASSUMPTIONS = [
     "the transport is the in-memory MemTransport: while the client has paused it nothing is delivered, so a "
@@ -31,7 +31,7 @@ ASSUMPTIONS = [
     "responses are well-formed (the statement quantifies over responses, not over garbage); no bytes follow a "
     "complete response",
 ]
-MIN = {"quick": {"evaluations": 220000, "nontrivial": 220000, "outcomes": 7},
+MIN = {"quick": {"evaluations": 280000, "nontrivial": 280000, "outcomes": 7},
        "thorough": {"evaluations": 2000000, "nontrivial": 2000000, "outcomes": 7}}
 
 TIMINGS = ["now", "before-next-event", "after-loss"]
@@ -45,6 +45,16 @@ def build(spec):
     method, persistent, status, interim, framing, body, eol, extra = spec
     nl = b"\r\n" if eol == "crlf" else b"\n"
     out = bytearray()
+    # field names and the transfer-coding / connection-option tokens are case-insensitive (RFC 9110 5.1,
+    # 9112 7, 9110 7.6.1): the "case-*" extras respell them, the expected outcome is unchanged
+    if extra == "case-upper":
+        nm, tok = bytes.upper, bytes.upper
+    elif extra == "case-mixed":
+        nm, tok = bytes.swapcase, bytes.capitalize
+    elif extra == "case-lower":
+        nm, tok = bytes.lower, bytes.lower
+    else:
+        nm = tok = lambda b: b
     for i in range(interim):
         out += b"HTTP/1.1 10%d Continue" % (i * 2) + nl
         if i:
@@ -55,17 +65,19 @@ def build(spec):
     if extra == "noreason":
         reason = b""
     out += version + b" %d" % status + reason + nl
-    out += b"X-A: v" + nl
+    out += nm(b"X-A") + b": v" + nl
+    if extra.startswith("case-"):
+        out += nm(b"Connection") + b": " + tok(b"close") + nl
     if extra == "fold":
         out += b"X-Fold: a" + nl + b"  b" + nl
     if framing == "cl":
-        out += b"Content-Length: %d" % len(body) + nl
+        out += nm(b"Content-Length") + b": %d" % len(body) + nl
     elif framing == "cl-dup":
-        out += b"Content-Length: %d" % len(body) + nl + b"content-length: %d" % len(body) + nl
+        out += nm(b"Content-Length") + b": %d" % len(body) + nl + b"content-length: %d" % len(body) + nl
     elif framing == "cl-list":
-        out += b"Content-Length: %d, %d" % (len(body), len(body)) + nl
+        out += nm(b"Content-Length") + b": %d, %d" % (len(body), len(body)) + nl
     elif framing in ("chunked1", "chunked2"):
-        out += b"Transfer-Encoding: chunked" + nl
+        out += nm(b"Transfer-Encoding") + b": " + tok(b"chunked") + nl
     out += nl
     H = len(out)
     marks = [False] * H
@@ -132,6 +144,12 @@ def specs(tier):
         add(framing="close", extra="http10")
         add(framing="cl", extra="http10", persistent=True)
         add(framing="chunked2", method="HEAD", interim=1, eol="lf")
+        for case in ("case-upper", "case-mixed", "case-lower"):
+            add(framing="chunked1", extra=case)
+        add(framing="chunked2", extra="case-mixed", persistent=True, eol="lf")
+        add(framing="cl", extra="case-upper", persistent=True)
+        add(framing="cl-dup", extra="case-mixed")
+        add(framing="close", extra="case-mixed", persistent=True)
         return out
     out.extend(specs("quick"))
     base = ("cl", "chunked1", "chunked2", "close", "none")
@@ -156,6 +174,10 @@ def specs(tier):
             for method in ("GET", "HEAD"):
                 add(method, persistent, 200, 0, framing, b"abc", "crlf")
         add("GET", False, 204, 1, framing, b"abc", "lf")
+    for framing in ("cl", "cl-list", "chunked1", "chunked2", "close"):
+        for extra in ("case-upper", "case-mixed", "case-lower"):
+            for persistent in (False, True):
+                add(framing=framing, extra=extra, persistent=persistent)
     for framing in ("cl", "chunked1", "chunked2", "close"):
         for extra in ("fold", "noreason", "http10"):
             for eol in ("crlf", "lf"):
